@@ -510,8 +510,17 @@ class HistoryRunner:
                 self._write_loop(filler, ses["writes"], k, 0)
         elif kind == "multi":
             import sedpack.io.dataset_writing as dw
-            args = [[w, self.st["attrs"], self.st["fmt"]]
-                    for w in ses["writers"]]
+            # positional arguments only, or (seeded) part of them as keyword
+            # arguments through `custom_kwarguments`
+            use_kw = bool(ses.get("pool_seed", 0) & 1)
+            if use_kw:
+                args = [[w] for w in ses["writers"]]
+                kwargs = [{"attrs": self.st["attrs"], "fmt": self.st["fmt"]}
+                          for _ in ses["writers"]]
+            else:
+                args = [[w, self.st["attrs"], self.st["fmt"]]
+                        for w in ses["writers"]]
+                kwargs = None
             shared: dict = {}
             for wi, writes in enumerate(ses["writers"]):
                 for w in writes:
@@ -525,6 +534,7 @@ class HistoryRunner:
                 res = ds.write_multiprocessing(
                     feed_writer=feed_writer,
                     custom_arguments=args,
+                    custom_kwarguments=kwargs,
                     consistency_check=False,
                     single_process=bool(ses.get("single_process")) or
                     self.pool_factory is None,
